@@ -53,11 +53,19 @@ func N(quick, thorough int) int {
 	return quick
 }
 
-// Scratch returns a fresh scratch directory outside /repo, /verif and /tmp.
+// Scratch returns a fresh scratch directory outside /repo, /verif and /tmp
+// (tmpfs /dev/shm when available, else /var/tmp; override with VERIF_SCRATCH).
 func Scratch(tag string) string {
 	base := os.Getenv("VERIF_SCRATCH")
 	if base == "" {
 		base = "/var/tmp"
+		if st, err := os.Stat("/dev/shm"); err == nil && st.IsDir() {
+			if f, err := os.CreateTemp("/dev/shm", "verif-probe-"); err == nil {
+				f.Close()
+				os.Remove(f.Name())
+				base = "/dev/shm" // tmpfs: no fsync cost; process-death semantics are unaffected
+			}
+		}
 	}
 	d, err := os.MkdirTemp(base, "verif-"+tag+"-")
 	if err != nil {
